@@ -34,6 +34,9 @@ def signature(row, inv):
     if "child process died" in row["run_err"]:
         return "gun=%s posts=%s letter=%s inv=RunOK cause=%s" % (
             row["gun"], row["posts"], lt, "data-race-dns-cache" if "DATA RACE" in row["run_err"] else "process-crash")
+    if inv in ("RunOK", "AllFired") and "context deadline exceeded" in row["run_err"]:
+        # the run was not over within the driver's generous limit, twice: an instance is blocked in a call
+        return "gun=%s posts=%s letter=%s inv=RunOK cause=instance-blocked ammo=%s" % (row["gun"], row["posts"], lt, row.get("avariant"))
     if inv in ("RunOK", "AllFired") and "shoot panic" in row["run_err"]:
         what = "panic"
         if "slice bounds" in row["run_err"]:
@@ -69,7 +72,7 @@ def dns_child(binary, out, rounds, instances, race):
         rows = [{"run": 9999 if race else 9998, "gun": "http", "posts": "none", "shots": 4 * n, "inst": n,
                  "ammo": [{"l": "avrefused", "code": 200}] * (4 * n), "ammo_s": ["avrefused"] * (4 * n), "samples": [],
                  "build_err": "", "run_err": crash, "fired": 0, "answered": 0, "seen": 0, "variant": "race" if race else "plain",
-                 "downs": 0, "faults": 0, "fatal": False, "mix": False, "wall_ms": 0, "retried": False, "kind": "letters",
+                 "downs": 0, "faults": 0, "avariant": "plain", "fatal": False, "mix": False, "wall_ms": 0, "retried": False, "kind": "letters",
                  "vlen": 0, "cases": [], "stderr_tail": err[-1500:]}]
     return rows
 
@@ -101,7 +104,8 @@ def validate(v, path, tag=""):
             row["run_err"][:160], row["fired"], row["shots"], dict(sorted(cnt.items())[:8]))
         v.violation(sig, what, replay_obj={"kind": "run", "invariant": inv, "line": row},
                     replay_name="run_%s_%s_%s_%s%s.json" % (row["gun"].replace("/", "-"), row["posts"],
-                                                            "mix%d" % row["run"] if row["mix"] else letter_name(row["ammo"][0]), inv, tag))
+                                                            ("mix%d" % row["run"] if row["mix"] else letter_name(row["ammo"][0])) +
+                                                            ("" if row.get("avariant", "plain") == "plain" else "-" + row["avariant"]), inv, tag))
     return rows, tr
 
 
